@@ -119,17 +119,27 @@ static void handler(const Line& t, Out& o) {
     std::unique_ptr<sk_t> p(new sk_t((uint8_t)t.at(2), ty_of(t.at(3)), t.at(4) != 0));
     regs[(long)t.at(1)] = std::move(p);
     o.R(1); break; }
-  case 2: { // update r kind args
-    update_item(get(t.at(1)), (int)t.at(2), t, 3);
+  case 2: { // update m registers with one item: 2 m r1..rm kind args
+    size_t m = (size_t)t.at(1);
+    if (t.size() < 2 + m + 1) { o.R(-2); break; }
+    std::vector<sk_t*> rs; for (size_t i = 0; i < m; ++i) rs.push_back(&get(t.at(2 + i)));
+    for (sk_t* s : rs) update_item(*s, (int)t.at(2 + m), t, 3 + m);
     o.R(1); break; }
-  case 3: { // raw coupons
-    sk_t& s = get(t.at(1));
-    for (size_t i = 2; i < t.size(); ++i) s.coupon_update((uint32_t)t[i]);
+  case 3: { // raw coupons: 3 m r1..rm c*
+    size_t m = (size_t)t.at(1);
+    std::vector<sk_t*> rs; for (size_t i = 0; i < m; ++i) rs.push_back(&get(t.at(2 + i)));
+    for (sk_t* s : rs)
+      for (size_t i = 2 + m; i < t.size(); ++i) s->coupon_update((uint32_t)t[i]);
     o.R(1); break; }
-  case 4: { // batch of int64 items: start + i*stride
-    sk_t& s = get(t.at(1));
-    uint64_t x = (uint64_t)t.at(2); uint64_t n = (uint64_t)t.at(3); uint64_t st = (uint64_t)t.at(4);
-    for (uint64_t i = 0; i < n; ++i) { s.update((int64_t)x); x += st; }
+  case 4: { // batch of int64 items start + i*stride, i < count: 4 m r1..rm start count stride
+    size_t m = (size_t)t.at(1);
+    if (t.size() < 2 + m + 3) { o.R(-2); break; }
+    std::vector<sk_t*> rs; for (size_t i = 0; i < m; ++i) rs.push_back(&get(t.at(2 + i)));
+    uint64_t n = (uint64_t)t.at(3 + m); uint64_t st = (uint64_t)t.at(4 + m);
+    for (sk_t* s : rs) {
+      uint64_t x = (uint64_t)t.at(2 + m);
+      for (uint64_t i = 0; i < n; ++i) { s->update((int64_t)x); x += st; }
+    }
     o.R(1); break; }
   case 6: query(get(t.at(1)), o); break;
   case 7: { // r2 := hll_sketch(r, ty)
